@@ -148,7 +148,7 @@ def check_invariant(ctx, c, dtypes, hist, kind):
                 if not np.array_equal(np.asarray(v[i], dtype=float), np.asarray(d['_' + k], dtype=float), equal_nan=True):
                     ctx.violation('values-content', f'{kind}: row {i} of values differs from series {k}', case)
                     return False
-        if kind == 'linker':
+        if kind.startswith('linker'):
             want_size = own_size + sum(sm.size for sm in d['submodels'].values())
         else:
             want_size = own_size
@@ -217,6 +217,23 @@ def make(kind, n, strict):
     if kind == 'container':
         c = monitored(VectorContainer)(span, strict=strict)
         dtypes = {}
+    elif kind == 'model-bare':
+        # a model class that declares no variables at all: values is an empty stack and size 0 until the first add_variable
+        class M0(fsic.BaseModel):
+            pass
+        c = monitored(M0)(span, strict=strict)
+        dtypes = {k: c.__dict__['_' + k].dtype for k in c.index}
+    elif kind == 'linker-bare':
+        class S0(fsic.BaseModel):
+            ENDOGENOUS = ['Y']
+            NAMES = ENDOGENOUS
+
+        class L0(fsic.BaseLinker):
+            pass
+        c = monitored(L0)({'s': S0(span)})
+        if strict:
+            c.strict = True
+        dtypes = {k: c.__dict__['_' + k].dtype for k in c.index}
     elif kind == 'model':
         class M(fsic.BaseModel):
             ENDOGENOUS = ['A']
@@ -443,10 +460,21 @@ def run_shard(ctx):
                         h = history(ctx, kind, 2, born_strict, plan, rng)
                         ctx.count('strict_sandwich_histories')
                         ctx.evaluation((kind, 2, born_strict, h), nontrivial=bool(h))
+    # classes that declare no variables: the invariant (values / size included) from the very first operation
+    for kind in ('model-bare', 'linker-bare'):
+        for n in (1, 2):
+            for strict in (False, True):
+                for s1 in single:
+                    idx += 1
+                    if ctx.mine(idx):
+                        for plan in ([s1], [('newattr', 0), s1], [s1, ('add', 5), s1]):
+                            h = history(ctx, kind, n, strict, plan, rng)
+                            ctx.count('bare_class_histories')
+                            ctx.evaluation((kind, n, strict, h), nontrivial=bool(h))
     # random long histories
     count = ctx.pick(150, 6000)
     for i in range(count):
-        kind = rng.choice(['container', 'container', 'model', 'linker'])
+        kind = rng.choice(['container', 'container', 'model', 'linker', 'model-bare', 'linker-bare'])
         n = rng.choice([1, 2, 3, 4])
         strict = rng.random() < 0.4
         plan = [(rng.choice(OPS), rng.randrange(ncat)) for _ in range(rng.randint(1, 12))]
